@@ -3,6 +3,7 @@ import Ts.Spec.Bits
 import Ts.Spec.PesSpec
 import Ts.Lemmas.C14c
 import Ts.Gen.Consts
+import Ts.Gen.Tables
 /-!
 # C14 — PES packet header fields are bit-exact, and rejection is exact
 
@@ -268,5 +269,12 @@ example : (parse [0x80, 0x80, 0x05, 0x21, 0x00, 0x00, 0x00, 0x01]).ptsDts
 example : (parse [0x80, 0x04, 0x01, 0x2A]).copyInfo = .present .markerCleared ∧
     Pes.additionalCopyInfo [0x80, 0x04, 0x01, 0x2A] = .ok (.error .markerBitNotSet) :=
   ⟨by decide +kernel, rfl⟩
+
+/-! ### tie to the value table regenerated from `StreamId::is_parsed` in `/repo/src/pes.rs` -/
+/-- the stream ids the SOURCE lists as carrying no optional header are exactly those of the model
+(and, by `isParsed_table`, those of ISO/IEC 13818-1 2.4.3.7) -/
+theorem tie_no_header_ids : ∀ sid : Fin 256,
+    Ts.Pes.isParsed sid.val = !(Ts.Gen.noHeaderIds.contains sid.val) := by decide +kernel
+theorem tie_no_header_ids_count : Ts.Gen.noHeaderIds.length = 8 := by decide
 
 end Ts.Props.C14
